@@ -4,5 +4,5 @@ tier=${1:-quick}
 cd "$(dirname "$0")/.."
 for p in $(python3 -c "import json;print(' '.join(c['property_id'] for c in json.load(open('MANIFEST.json'))['checks']))"); do
   s=$(date +%s); ./check $p $tier > build/all_$p.out 2>&1; rc=$?; e=$(date +%s)
-  echo "$p rc=$rc $((e-s))s $(grep -c '^VIOLATION' build/all_$p.out) viol $(grep -c '^KNOWN-FINDING' build/all_$p.out) known"
+  echo "$p rc=$rc $((e-s))s $(grep -c '^VIOLATION' build/all_$p.out) viol $(grep -c '^KNOWN-FINDING' build/all_$p.out) known $(grep -c '^MODEL-DRIFT' build/all_$p.out) drift"
 done
